@@ -284,6 +284,8 @@ def shapeOf (e : Evt) : Shape :=
     * `Channel::push` / `len`                       /repo/emitter/otlp/src/client.rs:707-751
     * `OtlpTransport::send` / `send_batch`          client.rs:552-623   (after `fix:` removing the second `pop`)
     * `HttpConnection::send`, `poison`/`unpoison`   client/http.rs:331-387
+    * `HttpSender::send_request` (fails on a pooled sender whose connection is gone)   client/http.rs:404-421
+    * `HttpResponse::stream_payload` (a body frame ERROR is an error, not the end of the body)  client/http.rs:680-726
     * response interpretation                       client.rs:422-441 (HTTP), 492-534 (gRPC; after `fix:` for
                                                     non-2xx and Trailers-Only error responses)
     * the receiver's retry loop                     /repo/batcher/src/lib.rs:405-441, 629-646 (`Retry::next`)
@@ -341,6 +343,11 @@ inductive Resp where
   | grpcH (n : Nat)      -- 200, `grpc-status: n` in the headers ("Trailers-Only"), no trailers
   | stall                -- body read, never answered (the request times out)
   | stallH               -- body read, response HEADERS (200) sent, then silence: no message, no trailers
+  | rstH                 -- body read, response HEADERS (200, no grpc-status) sent and received, then the response
+                         -- stream is reset (gRPC: RST_STREAM): the body breaks before any trailers; the
+                         -- connection survives
+  | drpH                 -- body read, response HEADERS (200; HTTP: with a content-length and the first bytes of
+                         -- the body) sent and received, then the CONNECTION is dropped: the body breaks mid-way
   | rstB                 -- connection dropped before the body is read
   | rstA                 -- connection dropped after the body is read
   deriving Repr, DecidableEq, Inhabited
@@ -353,21 +360,35 @@ inductive Transport where
 def Resp.headArrives : Resp → Bool
   | .stall => false | .rstB => false | .rstA => false | _ => true
 
-/-- Does the response body (and, for gRPC, the trailers) finish arriving? -/
+/-- Does the response body (and, for gRPC, the trailers) finish arriving? A stall never ends; a reset stream or a
+    dropped connection ends the body with an ERROR (`poll_frame` = `Some(Err(_))`, http.rs:680-726
+    `stream_payload` → `Err("failed to read HTTP response body")`) — which is not an end of the body. -/
 def Resp.bodyEnds : Resp → Bool
-  | .stallH => false | _ => true
+  | .stallH => false | .rstH => false | .drpH => false | _ => true
 
-/-- The collector's own view: did it acknowledge the request? -/
-def Resp.isAck : Resp → Bool
-  | .ack => true | .ackBody => true
-  | .status n => decide (200 ≤ n) && decide (n < 300)
-  | .grpc n => n == 0
-  | .grpcH n => n == 0
-  | _ => false
+/-- The peer drops the connection AFTER the response head reached the client: the client has already put the
+    sender back into its slot (`unpoison`, http.rs:381) when the connection dies — the slot holds a sender
+    whose connection is gone. -/
+def Resp.leavesStale : Resp → Bool
+  | .drpH => true | _ => false
 
 /-- HTTP status carried by a response whose head arrives. -/
 def Resp.httpStatus : Resp → Nat
   | .status n => n | _ => 200
+
+/-- The collector's own view: did it acknowledge the request? An OTLP/HTTP endpoint acknowledges with a 2xx
+    status line (whatever becomes of the response body afterwards); a gRPC endpoint with `grpc-status: 0` in
+    the trailers or in the headers of a Trailers-Only response (a 2xx response that ends without any
+    grpc-status is also taken as one — see props/C12.json `assumptions`). A gRPC response that stalls or breaks
+    between its headers and its trailers never said `grpc-status: 0`. -/
+def Resp.isAck : Transport → Resp → Bool
+  | .http, r => r.headArrives && decide (200 ≤ r.httpStatus) && decide (r.httpStatus < 300)
+  | .grpc, .ack => true
+  | .grpc, .ackBody => true
+  | .grpc, .status n => decide (200 ≤ n) && decide (n < 300)
+  | .grpc, .grpc n => n == 0
+  | .grpc, .grpcH n => n == 0
+  | .grpc, _ => false
 
 /-- `grpc-status` as the client determines it: the trailers' value, else the headers' value (a Trailers-Only
     response), else none. -/
@@ -380,8 +401,10 @@ def Resp.grpcStatus : Resp → Option Nat
     fails; otherwise `status` starts from the `grpc-status` header (0 when absent), is overwritten by a
     `grpc-status` trailer, and the request succeeded iff it is 0. The body is streamed to its end inside the
     request timeout (http.rs:343-386 wraps connect, send and the response handler in one `timeout`), so a
-    response that stalls after its headers is a timeout failure — with the sender already put back in the slot.
-    The HTTP handler never reads the body. -/
+    response that stalls after its headers is a timeout failure — with the sender already put back in the slot;
+    a body that ends with an error (stream reset, connection closed before the trailers) makes `stream_payload`
+    return `Err`, which the handler propagates with `?`: a failure, whatever `status` held by then.
+    The HTTP handler never reads the body: a 2xx status line is a success even when the body then breaks. -/
 def interpret : Transport → Resp → Bool
   | .http, r => decide (200 ≤ r.httpStatus) && decide (r.httpStatus < 300)
   | .grpc, r =>
@@ -401,6 +424,7 @@ structure Net where
   slot : Bool               -- `sender: Mutex<Option<HttpSender>>` holds a connection
   conns : Nat               -- connections established so far
   log : List Entry          -- newest first
+  stale : Bool := false     -- the peer dropped the connection of the pooled sender after it was put back
   deriving Repr, DecidableEq, Inhabited
 
 def reqIds (r : Request) : List Int := r.map (·.id)
@@ -413,18 +437,26 @@ def okResp (tr : Transport) (r : Resp) : Bool := r.headArrives && interpret tr r
 
 /-- State after one request was transmitted to a live endpoint (http.rs:343-386): the pooled sender was taken
     (`poison`) or a connection was made (`fresh`); when a response head arrives the sender is put back
-    (`unpoison`), otherwise (error, timeout) it is dropped and the slot stays empty. -/
+    (`unpoison`), otherwise (error, timeout) it is dropped and the slot stays empty. When the peer drops the
+    connection after the head arrived, the sender that was put back is stale. -/
 def Net.record (net : Net) (r : Request) : Net :=
   { net with
     script := net.script.tail
     slot := net.nextResp.headArrives
     conns := net.conns + (if net.slot then 0 else 1)
-    log := ⟨if net.nextResp = .rstB then none else some (reqIds r), net.nextResp, !net.slot⟩ :: net.log }
+    log := ⟨if net.nextResp = .rstB then none else some (reqIds r), net.nextResp, !net.slot⟩ :: net.log
+    stale := net.nextResp.leavesStale }
+
+/-- The slot holds a sender whose connection the peer has dropped. -/
+def Net.staleNow (net : Net) : Bool := net.slot && net.stale
 
 /-- `send_batch` → `HttpConnection::send` for one request. On a dead endpoint `connect` fails: nothing is
-    transmitted and the slot stays empty. -/
+    transmitted and the slot stays empty. With a stale sender in the slot, `poison` takes it and
+    `send_request` on it fails (`"failed to send HTTP request"`, http.rs:404-421) — nothing reaches the
+    endpoint, the sender is dropped, the attempt counts as a failure like any other; the next attempt connects. -/
 def attempt (tr : Transport) (net : Net) (r : Request) : Bool × Net :=
   if net.dead then (false, { net with slot := false })
+  else if net.staleNow then (false, { net with slot := false, stale := false })
   else (okResp tr net.nextResp, net.record r)
 
 inductive SendResult where
